@@ -103,6 +103,8 @@ struct G<'a, 'b> {
     only_2015: bool,
     /// the operand being generated is followed by a binary operator
     followed_by_op: bool,
+    no_empty_stmt: bool,
+    no_imports: bool,
 }
 
 const SHORT: &[&str] = &["a", "b", "x", "y", "f", "g", "n", "v", "it", "s", "foo", "bar", "baz", "tmp"];
@@ -1335,6 +1337,11 @@ impl<'a, 'b> G<'a, 'b> {
                 self.end(id);
                 self.tag("macro-stmt");
             }
+            3 if self.no_empty_stmt => {
+                let id = self.start(NodeKind::LetStmt);
+                self.ts(&["let", "filler", "=", "0", ";"]);
+                self.end(id);
+            }
             3 => {
                 self.t(";");
                 self.tag("empty-stmt");
@@ -1513,7 +1520,10 @@ impl<'a, 'b> G<'a, 'b> {
     }
     fn item_inner(&mut self, d: usize, top: bool) {
         self.attrs();
-        let pick = self.c.weighted(&[10, 5, 4, 3, 4, 2, 2, 2, 2, 2, 2, 1, 1, 1]);
+        let mut pick = self.c.weighted(&[10, 5, 4, 3, 4, 2, 2, 2, 2, 2, 2, 1, 1, 1]);
+        if self.no_imports && (pick == 7 || pick == 8) {
+            pick = 5;
+        }
         match pick {
             0 => {
                 self.tag("fn");
@@ -1999,6 +2009,10 @@ pub struct ProgSpace {
     pub max_arity: usize,
     pub max_items: usize,
     pub budget: isize,
+    /// do not generate redundant `;` statements
+    pub no_empty_stmt: bool,
+    /// do not generate `use` / `extern crate` items
+    pub no_imports: bool,
 }
 
 impl Default for ProgSpace {
@@ -2008,6 +2022,8 @@ impl Default for ProgSpace {
             max_arity: 5,
             max_items: 4,
             budget: 350,
+            no_empty_stmt: false,
+            no_imports: false,
         }
     }
 }
@@ -2017,6 +2033,8 @@ pub fn gen_prog(c: &mut Choices<'_>, space: &ProgSpace) -> Prog {
     let mut g = G {
         only_2015,
         followed_by_op: false,
+        no_empty_stmt: space.no_empty_stmt,
+        no_imports: space.no_imports,
         c,
         p: vec![],
         tags: vec![],
@@ -2087,6 +2105,8 @@ pub struct RenderOpts {
     pub wild_node: Option<usize>,
     /// text inserted immediately before the first token of `wild_node` (e.g. a skip attribute)
     pub node_prefix: String,
+    /// block comments never span lines
+    pub single_line_blocks: bool,
 }
 
 impl Default for RenderOpts {
@@ -2097,6 +2117,7 @@ impl Default for RenderOpts {
             in_stmt_p: 0,
             wild_node: None,
             node_prefix: String::new(),
+            single_line_blocks: false,
         }
     }
 }
@@ -2138,9 +2159,12 @@ pub fn render(prog: &Prog, c: &mut Choices<'_>, ro: &RenderOpts) -> Rendered {
     let mut stmt_depth = 0usize; // inside a fn-body statement
     let mut wild_depth = 0usize; // inside the wild node
     let mut nested_items = 0usize; // inside a nested item (no in-statement comments there)
+    let mut nest = 0usize; // delimiter nesting
+    let mut macro_open: Vec<usize> = vec![]; // nesting levels at which a macro call's delimiters opened
     let mut next_comment = 0usize;
     let mut indent = 0usize;
 
+    let single_line_blocks = ro.single_line_blocks;
     let push_comment = |text: &mut String,
                             comments: &mut Vec<CommentInfo>,
                             c: &mut Choices<'_>,
@@ -2158,7 +2182,7 @@ pub fn render(prog: &Prog, c: &mut Choices<'_>, ro: &RenderOpts) -> Rendered {
             " ünïcode ✓",
         ]);
         let body = if block {
-            if c.chance(1, 6) {
+            if c.chance(1, 6) && !single_line_blocks {
                 format!("/* {payload}{words}\n   second line of {payload} */")
             } else {
                 format!("/* {payload}{words} */")
@@ -2306,7 +2330,18 @@ pub fn render(prog: &Prog, c: &mut Choices<'_>, ro: &RenderOpts) -> Rendered {
                     }
                     text.push_str(&ws);
                     // a comment at an arbitrary token boundary inside a fn-body statement
-                    if ro.in_stmt_p > 0 && stmt_depth > 0 && nested_items == 0 && wild_depth == 0 && pending_start.is_empty() && c.chance(ro.in_stmt_p, 64) {
+                    if ro.in_stmt_p > 0
+                        && stmt_depth > 0
+                        && nested_items == 0
+                        && wild_depth == 0
+                        && pending_start.is_empty()
+                        // comments inside macro calls and around the `!` are lost or swallow code
+                        // (known findings): not generated
+                        && macro_open.is_empty()
+                        && s != "!"
+                        && prev != "!"
+                        && c.chance(ro.in_stmt_p, 64)
+                    {
                         push_comment(&mut text, &mut comments, c, &mut next_comment, "in-stmt", &mut force_newline);
                         if force_newline {
                             text.push('\n');
@@ -2342,6 +2377,21 @@ pub fn render(prog: &Prog, c: &mut Choices<'_>, ro: &RenderOpts) -> Rendered {
                             e.3 = text.len() - ro.node_prefix.len();
                         }
                     }
+                }
+                match s.as_str() {
+                    "(" | "[" | "{" => {
+                        if prev_tok.as_deref() == Some("!") {
+                            macro_open.push(nest);
+                        }
+                        nest += 1;
+                    }
+                    ")" | "]" | "}" => {
+                        nest = nest.saturating_sub(1);
+                        if macro_open.last() == Some(&nest) {
+                            macro_open.pop();
+                        }
+                    }
+                    _ => {}
                 }
                 text.push_str(s);
                 prev_tok = Some(s.clone());
